@@ -3,7 +3,8 @@
 the real PGM-index templates to CBMC's C front end.  Scratch feasibility probe, not framework code."""
 import re, sys, os
 
-OPTS = {'narrow': 0}   # narrow=B: wide mul/div/int->fp are computed on B-bit signed operands under a CHECKED assertion that the operands fit
+OPTS = {'narrow': 0, 'noop': []}   # noop: regexes of void functions given an empty body (logging / memory accounting of third-party code)
+#   # narrow=B: wide mul/div/int->fp are computed on B-bit signed operands under a CHECKED assertion that the operands fit
 
 class Ty:
     def __init__(s, k, **kw): s.k = k; s.__dict__.update(kw)
@@ -864,7 +865,7 @@ def typed_memcpy(s, d, src, n, move):
     bw = 'for (unsigned long i_ = n_; i_ > 0; i_--) { %s }' % body('i_ - 1')
     chk = 'RT_ASSERT((%s) %% %dUL == 0, "mem%s length is a multiple of the element size");' % (n, sd, 'move' if move else 'cpy')
     if move:
-        return '{ unsigned long n_ = (%s) / %dUL; %s if ((char*)(%s) <= (char*)(%s)) { %s } else { %s } }' % (n, sd, chk, od[0], os_[0], fw, bw)
+        return '{ unsigned long n_ = (%s) / %dUL; %s if ((unsigned long)(char*)(%s) <= (unsigned long)(char*)(%s)) { %s } else { %s } }' % (n, sd, chk, od[0], os_[0], fw, bw)
     return '{ unsigned long n_ = (%s) / %dUL; %s %s }' % (n, sd, chk, fw)
 
 # ---------------------------------------------------------------- module driver
@@ -917,6 +918,10 @@ def translate(m, roots):
             hdr = 'void %s(%s)' % (fname(fn), ', '.join(g.decl(t, 'a%d' % i) for i, (t, _) in enumerate(f.args)))
             body = hdr + ' { struct rt_string *s_ = (struct rt_string*)a0; s_->p = s_->u.buf; s_->len = 0; s_->u.buf[0] = 0; }\n'
             protos.append(hdr + ';'); bodies.append(body); g.stats['stubbed_string_formatting'] += 1; continue
+        if any(re.search(rx, fn) for rx in OPTS['noop']) and m.funcs[fn].ret.k == 'void':
+            f = m.funcs[fn]
+            hdr = 'void %s(%s)' % (fname(fn), ', '.join(g.decl(t, 'a%d' % i) for i, (t, _) in enumerate(f.args)) or 'void')
+            protos.append(hdr + ';'); bodies.append(hdr + ' { }\n'); g.stats['stubbed_noop'] += 1; continue
         if 'verif_new_array' in fn:
             f = m.funcs[fn]; et = g.cty(f.ret.to)
             hdr = '%s %s(unsigned long v_n)' % (g.cty(f.ret), fname(fn))
@@ -935,6 +940,7 @@ def translate(m, roots):
             for fn in re.findall(r'void \(\)\* (@[-\w.$]+)', ln):
                 body = ' '.join(i for _, b in m.funcs[fn].blocks for i in b) if fn in m.funcs else 'ios_base4Init'
                 if 'ios_base4Init' in body: continue
+                if '3pgm' not in body: g.stats['global_ctors_skipped_not_pgm'] += 1; continue   # sdsl / cereal statics: not on any encoded path
                 ctors.append(fn)
     todo = list(ctors)
     while todo:
